@@ -4,7 +4,7 @@
 From Coq Require Import String.
 From Coq Require Import List NArith Bool Arith Lia.
 From VF Require Import Matcher.Model Matcher.ParserFacts Matcher.EvalFacts Matcher.PrintLex Matcher.PrintParse
-  Matcher.ParseSound Matcher.Canon C18.Entry C18.HoldsProof.
+  Matcher.ParseSound Matcher.Canon C18.Entry C18.HoldsProof C18.HoldsIff.
 Import ListNotations.
 
 (* ---- grammar ---- *)
@@ -69,6 +69,28 @@ Proof.
 Qed.
 Print Assumptions C18_grammar_exact.
 
+(* every string that is not a legal layout is rejected with ParseError (-> ValueError) *)
+Theorem C18_other_strings_rejected : forall V compile,
+  bare_keyword_atom V = false -> overflow_escapes V = false ->
+  (forall a t, compile a <> COther t) -> (forall a, a_type a = TGlob -> compile a = COk) ->
+  forall s,
+  ~ (exists t w0 w3, ok 0 t /\ is_ws w0 /\ is_ws w3 /\ s = w0 ++ print t ++ w3 /\ compiled compile t) ->
+  parse V compile s = Er ParseErr.
+Proof.
+  intros V compile Hb Ho Hc Hg s Hn.
+  destruct (parse_errors V compile Ho Hc Hg s) as [[e He]|He]; [|exact He].
+  exfalso. apply Hn. destruct (parse_sound V compile Hb s e He) as (t & w0 & w3 & H1 & H2 & H3 & H4 & _ & H6).
+  exists t, w0, w3. auto.
+Qed.
+Print Assumptions C18_other_strings_rejected.
+
+(* the code's parser (with the bare-keyword quirk) and the documented grammar agree on every legal layout *)
+Theorem C18_variants_agree_on_layouts : forall compile t w0 w3,
+  ok 0 t -> compiled compile t -> is_ws w0 -> is_ws w3 ->
+  parse current compile (w0 ++ print t ++ w3) = parse documented compile (w0 ++ print t ++ w3).
+Proof. intros. now rewrite !parse_print. Qed.
+Print Assumptions C18_variants_agree_on_layouts.
+
 (* ---- evaluation ---- *)
 (* match() on an expression tree is the documented truth table over the atoms, whenever the atoms
    that are reached have a truth value (always, under the documented lookup semantics) *)
@@ -114,6 +136,14 @@ Print Assumptions C18_cache_transparent.
 Theorem C18_holds : forall c, valid c -> holds c (run_model c) = [].
 Proof. exact holds_model. Qed.
 Print Assumptions C18_holds.
+
+(* the executable verdict and the clauses as propositions cannot drift apart *)
+Theorem C18_holds_iff : forall c o,
+  holds c o = [] <->
+  (match c_expected c with Some e => reference c = Ok e | None => True end) /\
+  fst o = wanted c /\ snd o = fst o.
+Proof. exact holds_iff. Qed.
+Print Assumptions C18_holds_iff.
 
 (* ---- behaviour that violates the property ---- *)
 (* before 86538e9: OverflowError of re.compile escaped *)
